@@ -23,11 +23,13 @@ type CCase struct {
 	End   string       `json:"end"`  // close | drop
 	Users int          `json:"users"`
 	Scope bool         `json:"scope"` // server checks credentials of work connections (NewWorkConns scope): an edited key must be what is checked
+	Extra int          `json:"extra"` // further proxies of the same session (only when no plugin edits or refuses NewProxy): each gets its own CloseProxy notification at the end
 }
 
 func genC(t *rapid.T) CCase {
 	c := CCase{Chain: genChain(t), Kind: rapid.SampledFrom([]string{"tcp", "tcp", "tcpmux", "stcp"}).Draw(t, "kind"),
-		End: rapid.SampledFrom([]string{"close", "drop"}).Draw(t, "end"), Users: rapid.IntRange(1, 2).Draw(t, "users"), Scope: rapid.Bool().Draw(t, "scope")}
+		End: rapid.SampledFrom([]string{"close", "drop"}).Draw(t, "end"), Users: rapid.IntRange(1, 2).Draw(t, "users"), Scope: rapid.Bool().Draw(t, "scope"),
+		Extra: rapid.SampledFrom([]int{0, 0, 2, 3, 5}).Draw(t, "extra")}
 	// calls that go wrong at Login end the script early: keep most chains login-friendly
 	if rapid.IntRange(0, 3).Draw(t, "loginfriendly") != 0 {
 		for i := range c.Chain {
@@ -254,6 +256,22 @@ func runC(c CCase) error {
 
 	// ---- end: CloseProxy notifications for every proxy that stops
 	consCP, _, _, _ := expect(c.Chain, "CloseProxy", finalName)
+	// further proxies of the session, registered only when the chain leaves NewProxy alone
+	var extras []string
+	plain := true
+	for _, p := range c.Chain {
+		if supports(p, "NewProxy") && p.Outcome["NewProxy"] != "accept" {
+			plain = false
+		}
+	}
+	if plain && c.End == "drop" {
+		for k := 0; k < c.Extra; k++ {
+			n := fmt.Sprintf("extra-%d", k)
+			if r, e := sc.NewProxy(&msg.NewProxy{ProxyName: n, ProxyType: "stcp", Sk: "sk"}, 5*time.Second); e == nil && r.Error == "" {
+				extras = append(extras, n)
+			}
+		}
+	}
 	from := len(callsFor("CloseProxy"))
 	if c.End == "close" {
 		_ = sc.CloseProxy(finalName)
@@ -261,20 +279,43 @@ func runC(c CCase) error {
 	} else {
 		sc.Close()
 	}
+	wantCalls := len(consCP) * (1 + len(extras))
 	deadline = time.Now().Add(4 * time.Second)
 	for {
-		if len(callsFor("CloseProxy"))-from >= len(consCP) || time.Now().After(deadline) {
+		if len(callsFor("CloseProxy"))-from >= wantCalls || time.Now().After(deadline) {
 			break
 		}
 		time.Sleep(3 * time.Millisecond)
 	}
 	time.Sleep(20 * time.Millisecond)
-	if e := checkConsulted("CloseProxy", from, consCP, "proxy stopped by "+c.End); e != nil {
-		return e
-	}
-	for _, cl := range callsFor("CloseProxy")[from:] {
-		if n, _ := cl.Content["proxy_name"].(string); n != finalName {
-			return fmt.Errorf("CloseProxy notification names %q, the proxy was registered as %q", n, finalName)
+	if len(extras) == 0 {
+		if e := checkConsulted("CloseProxy", from, consCP, "proxy stopped by "+c.End); e != nil {
+			return e
+		}
+		for _, cl := range callsFor("CloseProxy")[from:] {
+			if n, _ := cl.Content["proxy_name"].(string); n != finalName {
+				return fmt.Errorf("CloseProxy notification names %q, the proxy was registered as %q", n, finalName)
+			}
+		}
+	} else {
+		// the session ended with several proxies: every consulted plugin hears about each of them exactly once
+		live := append([]string{finalName}, extras...)
+		for _, pi := range consCP {
+			seen := map[string]int{}
+			for _, cl := range callsFor("CloseProxy")[from:] {
+				if cl.Plugin == pi {
+					n, _ := cl.Content["proxy_name"].(string)
+					seen[n]++
+				}
+			}
+			for _, n := range live {
+				if seen[n] != 1 {
+					return fmt.Errorf("session ended with proxies %v: plugin p%d received %d CloseProxy notifications for %q (all it received: %v)", live, pi, seen[n], n, seen)
+				}
+			}
+			if len(seen) != len(live) {
+				return fmt.Errorf("session ended with proxies %v: plugin p%d received CloseProxy notifications for %v", live, pi, seen)
+			}
 		}
 	}
 	// ---- no stub was consulted for an operation it did not register
